@@ -37,8 +37,15 @@ func verifItemID(ss vxfw.SubSurface) int {
 // range, the drawn items are consecutive items laid out in order, contiguously and without
 // overlap, and after a selection change the selected item is inside the viewport.
 func VerifC19Dynamic() {
+	// small=1: fewer item sets (0 or 3 items of heights 1 / 3) so that longer operation
+	// sequences stay cheap
+	small := zzverif.Param("small") == 1
 	n := []int{0, 1, 2, 3}[zzverif.Choose("items", 4)]
 	heights := []uint16{1, 3, 5}
+	if small {
+		zzverif.Assume(n == 0 || n == 3)
+		heights = []uint16{1, 3}
+	}
 	items := make([]*verifItem, n)
 	for i := range items {
 		items[i] = &verifItem{id: i, h: heights[zzverif.Choose("height", len(heights))]}
@@ -51,7 +58,9 @@ func VerifC19Dynamic() {
 		return nil
 	}}
 	d.DrawCursor = zzverif.Bool("drawCursor")
-	d.Gap = zzverif.Choose("gap", 2)
+	if !small {
+		d.Gap = zzverif.Choose("gap", 2)
+	}
 	ctx := vxfw.DrawContext{Max: vxfw.Size{Width: 5, Height: uint16(H)}, Characters: vaxis.Characters}
 	zzverif.Terminates(4000)
 	cursorSetBeyond := false
@@ -97,7 +106,9 @@ func VerifC19Dynamic() {
 	k := zzverif.Param("ops")
 	for j := 0; j < k; j++ {
 		before := d.Cursor()
-		switch zzverif.Choose("op", 6) {
+		switch zzverif.Choose("op", 7) {
+		case 6:
+			// nothing happens between two draws
 		case 5:
 			// a caller error (the cursor set one past the last item): the widget cannot know
 			// the item count, so only "no panic" is claimed until the cursor is back in range
